@@ -439,7 +439,7 @@ def main(tier):
     progs = load_progs()
     rep = common.Reporter(PID)
     tmo = 600 if tier == "quick" else 2400
-    deadline = t0 + (1500 if tier == "quick" else 3300)
+    deadline = time.time() + (1500 if tier == "quick" else 3300)      # after the MIR dumps
     cfgs = CONFIGS[tier]
     only = os.environ.get("VERIF_C09_ONLY")        # development aid: run the configurations whose name contains this text
     if only:
